@@ -9,6 +9,7 @@ import (
 	"os"
 	"path/filepath"
 	"strconv"
+	"time"
 
 	"verif/check"
 	_ "verif/props"
@@ -25,6 +26,7 @@ func main() {
 		os.Exit(2)
 	}
 	if *job != "" {
+		vrt.StartWatchdog(20 * time.Second)
 		os.Exit(check.RunWorker(*job))
 	}
 	args := flag.Args()
